@@ -119,7 +119,8 @@ def impl_case(case):
     laws["idem"] = aa == a1
     # for a union that stays a union, multiplicity and order of the members are invisible to ==:
     # uniting it with itself / with Never gives an equal value even when it was built with repeats
-    if isinstance(a, V.MultiValuedValue) and isinstance(a1, V.MultiValuedValue):
+    # (Any[unreachable] members are dropped by unite_values, so such unions are excluded)
+    if isinstance(a, V.MultiValuedValue) and isinstance(a1, V.MultiValuedValue) and not any(V._is_unreachable(x) for x in a.vals):
         laws["idem_self"] = (aa == a) and (a1 == a) and (a == a1) and un(V.NO_RETURN_VALUE, a) == a and un(a, V.NO_RETURN_VALUE) == a
     laws["never_identity"] = un(V.NO_RETURN_VALUE, a) == a1 and un(a, V.NO_RETURN_VALUE) == a1
     laws["comm"] = ab == ba
